@@ -58,6 +58,14 @@ struct in_s nondet_in(void);
 #endif
 
 static const uint8_t SCRIPT[SLEN] = { SCRIPT_OPS };
+
+/* C16: tokens processed per call, observed through the public callback field */
+static unsigned cb_count;
+static void count_cb(binson_parser *parser, uint16_t next_state, void *context)
+{
+    (void) parser; (void) next_state; (void) context;
+    cb_count++;
+}
 #ifdef SK_LEN
 /* skeleton: the structure bytes of the document are concrete (SK_MASK[i] == 1), payload bytes stay symbolic */
 static const uint8_t SK[SK_LEN] = { SK_BYTES };
@@ -243,6 +251,12 @@ void harness(void)
         executed++;
         size_t d0 = binson_parser_get_depth(&p);
         (void) d0;
+#if PROPSET == 16
+        size_t used_before = p.buffer_used;
+        cb_count = 0;
+        p.cb = count_cb;            /* public field; reset/verify/init leave it alone or clear it, so re-arm per call */
+        p.cb_context = NULL;
+#endif
         switch (op) {
         case 1: case 2: {
             bool r = (op == 1) ? binson_parser_go_into_object(&p) : binson_parser_go_into_array(&p);
@@ -418,6 +432,14 @@ void harness(void)
         }
         default: break;
         }
+#if PROPSET == 16
+        if (op != 12 && op != 13) {
+            CHECK(p.buffer_used >= used_before, "C16 a call never leaves the cursor before its starting point");
+            CHECK(cb_count <= (p.buffer_used - used_before) + 2, "C16 tokens processed by one call <= bytes it advanced over + 2");
+        } else {
+            CHECK(cb_count <= NB + 2, "C16 verify processes at most one token per byte");
+        }
+#endif
 #if MODE == 1
         /* after every protocol-following call on a valid document */
         PCHECK(6, p.error_flags == BINSON_ERROR_NONE, "C06 no error is raised by a protocol-following call on a valid document");
